@@ -1687,10 +1687,10 @@ def check_cases(ctx, cases):
                                      if (r["stage"], r["producer"]) == q and r["method"] in ("loopoutput", "loopref", "output")}):
                         ctx.tag("disk-consumer:%s:%s" % (m, "all-present" if all(isinstance(x, str) for x in st) else
                                                         "some-or-all-missing"))
-                for slug, detail in oracle_disk(case, ks_at, states, d["obs"]):
+                for slug, detail in oracle_disk_run(case, dict(out, disk=[d])):
                     if slug not in seen_disk:
                         seen_disk.add(slug)
-                        ctx.fail(slug, case, dict(detail, after_ops=n_at))
+                        ctx.fail(slug, case, detail)
                         ctx.tag("oracle:" + slug)
                 if mouts is not None:
                     md = [x for x in mouts[idx].get("disk", []) if x["at"] == n_at]
@@ -1767,11 +1767,25 @@ def check_cases(ctx, cases):
 # shrinking
 # ----------------------------------------------------------------------------------------
 
+def oracle_disk_run(case, out):
+    """[(slug, detail)] of the `files` operations of a run: first failure of every clause"""
+    res, seen = [], set()
+    nl = len(case["loops"])
+    for d in out.get("disk") or []:
+        ks_at = counts(case["ops"][:d["at"]], nl)
+        states = norm_spec(case, ks_at, case["ops"][d["at"] - 1][1])
+        for slug, detail in oracle_disk(case, ks_at, states, d["obs"]):
+            if slug not in seen:
+                seen.add(slug)
+                res.append((slug, dict(detail, after_ops=d["at"])))
+    return res
+
+
 def fails_with(what, case, tmp):
     out = impl_run(case, tmp)
     if "error" in out and what.startswith("real-code-raises-"):
         return what == "real-code-raises-" + out["error"].replace(":", "-")
-    return any(s == what for s, _ in oracle_run(case, out))
+    return any(s == what for s, _ in oracle_run(case, out) + oracle_disk_run(case, out))
 
 
 def drop_component(case, l, idx):
@@ -2058,7 +2072,7 @@ def run(ctx):
         n, budget = 44, 14
     else:
         ks = [0, 1, 2, 4, 6, 9, 10, 11, 12, 13, 15, 19, 20, 21, 22, 25, 25]
-        n, budget = 215, 30
+        n, budget = 150, 30
     generated = [gen_case(rng, budget, ks) for _ in range(n)]
     # the state of the disk: most cases get 1-2 `files` operations (drawn from a generator of their own, after the
     # packages and operation sequences, so that those stay what they were)
@@ -2071,7 +2085,7 @@ def run(ctx):
     cases += [("generated", c) for c in generated]
     small = [c for c in generated if 1 <= sum(counts(c["ops"], len(c["loops"]))) <= 6]
     # (a) set-iteration order: a sample of the cases again in child processes with other hash seeds
-    nchild, seeds = (6, 2) if quick else (12, 3)
+    nchild, seeds = (6, 2) if quick else (10, 2)
     interesting = sorted(small, key=lambda c: -(2 * any(r["method"] in AGG for lp in c["loops"] for q in lp["loop"] for r in q["refs"])
                                                 + shares_names(c)))
     for i in range(seeds):
@@ -2079,7 +2093,7 @@ def run(ctx):
         for c in interesting[:nchild]:
             cases.append(("generated-other-hash-seed", dict(copy.deepcopy(c), hashseed=hs)))
     # (b) process-level state: a case, other cases with the same names in other roles, the same case again
-    nagain = 3 if quick else 12
+    nagain = 3 if quick else 8
     for i in range(min(nagain, len(small) // 3)):
         a, b, c = small[3 * i], small[3 * i + 1], small[3 * i + 2]
         cases.append(("generated-run-again-after-others", dict(copy.deepcopy(a), again_after=[b, c])))
